@@ -34,7 +34,21 @@ def _tag():
 
 
 BUILD = os.path.join(VERIF, "build" + _tag())
-COQ = os.path.join(VERIF, "coq")
+SCRATCH = _tag() != ""
+# a scratch repo (mutant) gets its own copy of the Coq tree (coq/Gen is
+# regenerated from the repo under test) and its own evidence/replay dirs, so
+# that runs against /repo itself are never disturbed
+COQ = os.path.join(BUILD, "coq") if SCRATCH else os.path.join(VERIF, "coq")
+OUT = BUILD if SCRATCH else VERIF
+_synced = [False]
+
+
+def sync_coq():
+    if SCRATCH and not _synced[0]:
+        os.makedirs(COQ, exist_ok=True)
+        sh(["rsync", "-a", "--delete", "--exclude", "Gen/", os.path.join(VERIF, "coq") + "/", COQ + "/"], check=True)
+        sh(["rsync", "-a", "--ignore-existing", os.path.join(VERIF, "coq", "Gen") + "/", os.path.join(COQ, "Gen") + "/"])
+        _synced[0] = True
 
 
 # --------------------------------------------------------------------------
@@ -212,6 +226,7 @@ def regenerate():
     """re-run every tools/gen_*.py; each writes its coq/Gen/*.v only when the
     content changed (keeps make incremental). Returns list of (name, ok, text)."""
     res = []
+    sync_coq()
     tdir = os.path.join(VERIF, "tools")
     with Lock("coq"):
         for f in sorted(os.listdir(tdir)):
@@ -309,6 +324,7 @@ def coq_deps(vfile):
 def coq_build(targets, timeout=3000):
     """make -k the given .vo targets (relative to coq/). Returns
     (ok, failed_targets, log)."""
+    sync_coq()
     with Lock("coq"):
         coq_project()
         rc, out, err = sh(["make", "-k", "-j%d" % NCPU] + targets, cwd=COQ, timeout=timeout,
@@ -481,7 +497,7 @@ class Ctx:
 
     # ---- reporting ----
     def replay_path(self, obj):
-        d = os.path.join(VERIF, "replays", self.pid)
+        d = os.path.join(OUT, "replays", self.pid)
         os.makedirs(d, exist_ok=True)
         txt = json.dumps(obj, indent=1, sort_keys=True, default=str)
         p = os.path.join(d, hashlib.sha1(txt.encode()).hexdigest()[:16] + ".json")
@@ -538,8 +554,8 @@ class Ctx:
             "coverage": cov, "assumptions": list(self.assumptions) + list(extra_assumptions),
             "wall_s": round(time.time() - self.t0, 2), "violations": len(self.violations),
         }
-        os.makedirs(os.path.join(VERIF, "evidence"), exist_ok=True)
-        with open(os.path.join(VERIF, "evidence", self.pid + ".json"), "w") as f:
+        os.makedirs(os.path.join(OUT, "evidence"), exist_ok=True)
+        with open(os.path.join(OUT, "evidence", self.pid + ".json"), "w") as f:
             json.dump(ev, f, indent=1, sort_keys=True, default=str)
         shutil.rmtree(self.work, ignore_errors=True)
         return 1 if self.violations else 0
